@@ -7,11 +7,13 @@ pub mod c10;
 pub mod c11;
 pub mod c12;
 pub mod c17;
+pub mod c18;
 pub mod c19;
 
 pub fn lookup(name: &str) -> Option<Box<dyn Stream>> {
     match name {
         "c19" => Some(Box::new(c19::C19::new())),
+        "c18" => Some(Box::new(c18::C18::new())),
         "c17" => Some(Box::new(c17::C17::new())),
         "c12" => Some(Box::new(c12::C12::new())),
         "c10" => Some(Box::new(c10::C10::new())),
